@@ -66,6 +66,11 @@ def _cmp_pos(ctx, tag, res, i, ri, n):
     if shp is None or len(shp) < 1 or shp[0] != n:
         return
     x = res[i]
+    if getattr(x, "ndim", 0) >= 1:
+        ctx.require(f"{tag}:element-shape", tuple(x.shape) == tuple(np.shape(ri)))
+        if tuple(x.shape) == tuple(np.shape(ri)):
+            ctx.require(f"{tag}:numbers", ctx.all([ctx.eq(u, v) for u, v in zip(E(x), E(ri))]))
+        return
     isb = isinstance(ri, (bool, np.bool_)) or type(ri).__name__ == "SymBool" or getattr(ri, "dtype", None) == np.dtype(bool)
     if isb:
         ctx.require(f"{tag}:truth", ctx.iff(ctx.truth(x), ctx.truth(ri)))
@@ -233,6 +238,17 @@ def b_SP(ctx):
     return [("c", SegmentCollection, _segments(ctx)), ("c", PointCollection, pts(ctx, ["p0", "p1"]))]
 
 
+def b_SlatP(ctx):
+    """two lattice segments x two free finite points"""
+    from geometer import SegmentCollection, PointCollection, Segment, Point
+    c = lambda *v: Point(ctx.const(list(v), float))
+    segs = [Segment(c(0, 0, 1), c(1, 0, 1)), Segment(c(1, -1, 1), c(2, 2, 1))]
+    ps = pts(ctx, ["p0", "p1"])
+    for p in ps:
+        ctx.assume(ctx.neg(ctx.is_zero(E(p.array)[2])))
+    return [("c", SegmentCollection, segs), ("c", PointCollection, ps)]
+
+
 def b_S(ctx):
     from geometer import SegmentCollection
     return [("c", SegmentCollection, _segments(ctx))]
@@ -277,6 +293,12 @@ def b_POLY(dim=2):
         from geometer import PolygonCollection
         return [("c", PolygonCollection, _polys(ctx, dim))]
     return b
+
+
+def b_POLY3_flat(ctx):
+    """two lattice 4-gons in the planes z = h0, z = h1 (free real heights)"""
+    from geometer import PolygonCollection
+    return [("c", PolygonCollection, _polys(ctx, 3, shear=False))]
 
 
 # ------------------------------------------------------------------ structural: indexing / iteration keep class and attributes
@@ -332,6 +354,8 @@ def ops():
         ("mirror", b_LP, lambda L, P: L.mirror(P), Q),
         ("base_point", b_L, lambda L: L.base_point, Q),
         ("direction", b_L, lambda L: L.direction, Q),
+        ("basis_matrix", b_L, lambda L: L.basis_matrix, Q),
+        ("general_point", b_L, lambda L: L.general_point, Q),
         ("isinf", b_P, lambda P: P.isinf, Q),
         ("normalized_array", b_P, lambda P: P.normalized_array, Q),
         ("add", b_PQ(2), lambda P, Q_: P + Q_, Q),
@@ -354,6 +378,8 @@ def ops():
         ("quadric_dual", b_Q, lambda Q_: Q_.dual, Q),
         ("segment_contains", b_SP, lambda S, P: S.contains(P), Q),
         ("segment_length", b_S, lambda S: S.length, Q),
+        ("dist_segment_point", b_SP, lambda S, P: dist(S, P), ("attempt",)),
+        ("dist_lattice_segment_point", b_SlatP, lambda S, P: dist(S, P), Q),
         ("segment_midpoint", b_S, lambda S: S.midpoint, T),
         ("polygon_contains", b_POLY_P(2), lambda C, P: C.contains(P), Q),
         ("polygon_area", b_POLY(2), lambda C: C.area, Q),
@@ -361,6 +387,7 @@ def ops():
         ("polygon3d_contains_broadcast", b_POLY_p3, lambda C, p: C.contains(p), Q),
         ("polygon_contains_broadcast", b_POLY_p2, lambda C, p: C.contains(p), Q),
         ("polygon3d_area", b_POLY(3), lambda C: C.area, T),
+        ("polygon3d_area_free_heights", b_POLY3_flat, lambda C: C.area, Q),
     ]
     return o
 
